@@ -12,7 +12,7 @@ CLAUSES = {
             "Info.RowsInMatchOrder": "InfoRowsOnePerRound", "Info.AdapterNameAndSuffix": "InfoRowsNameTheAppliedAdapter",
             "Info.NoMatchRow": "UntouchedWhenNothingOrRequiredPartMissing", "Dest": "CountsAsTrimmedOnlyIfAllRequiredFound",
             "Report.WithAdapters": "CountsAsTrimmedOnlyIfAllRequiredFound"},
-    "C10": {"Seq1": "OutputEqualsComposition", "Seq2": "OutputEqualsComposition", "Name1": "NamesEqualComposition",
+    "C10": {"Stages.DocumentedOrder": "ModifiersActInDocumentedOrder", "Seq1": "OutputEqualsComposition", "Seq2": "OutputEqualsComposition", "Name1": "NamesEqualComposition",
             "Name2": "NamesEqualComposition", "Dest": "FiltersSeeFullyModifiedRead"},
     "C11": {"Dest": "FirstApplicableFilterWins", "Fate": "FirstApplicableFilterWins", "Occurrences": "OneDestinationPerRead"},
     "C05": {"PairSync": "SameCountSameOrderRecordKFromSamePair", "Dest": "PairDecision", "Seq1": "PairAdaptersBothOrNeither",
@@ -51,7 +51,7 @@ OWNERS = {
     "shorten": {"C03", "C10"}, "zerocap": {"C03", "C10"}, "name": {"C10"},
     "orient": {"C16"}, "choice": {"C09", "C05"}, "action": {"C03"}, "adapter": {"C03", "C05", "C09", "C16"},
 }
-OBSERVATION_ONLY = {"Struct1", "Struct2", "PairSync", "Report.InputCount", "Report.Conservation", "Report.WrittenMatchesFiles",
+OBSERVATION_ONLY = {"Stages.DocumentedOrder", "Struct1", "Struct2", "PairSync", "Report.InputCount", "Report.Conservation", "Report.WrittenMatchesFiles",
                     "Report.InputBasePairs", "Report.TextFateEqualsJson", "Report.MinimalEqualsJson",
                     "Demux.FileForEveryName", "Demux.MultisetEqualsPlainRun", "Info.RowForEveryInputRead",
                     "Info.MiddleIsCoordinates", "Info.QualitiesSplitAlike"}
